@@ -5,7 +5,10 @@ from pathlib import Path
 for m in sorted(Path("/verif/seeded").glob("*/meta.json")):
     e = json.loads(m.read_text())
     prop, k = e["id"].split("-")
-    st = Path(f"/tmp/wt/out-{prop}/{k}/suite.txt")
+    rnd = ""
+    if k.startswith("r"):
+        rnd, k = k[1], k[2:]
+    st = Path(f"/tmp/wt/out{rnd}-{prop}/{k}/suite.txt")
     if not st.exists():
         print("pending", e["id"]); continue
     line = [l for l in st.read_text().split("\n") if " passed" in l]
